@@ -772,249 +772,67 @@ Proof.
   induction p as [|x p IH]; cbn [List.length app skipn]; [reflexivity|exact IH].
 Qed.
 
-(* first occurrence of a character *)
-Lemma split_first (c : Z) : forall s : list Z,
-  exists m q, s = m ++ q /\ ~ In c m /\ (q = [] \/ exists q', q = c :: q').
-Proof.
-  induction s as [|x s (m & q & E & Hm & Hq)].
-  - exists [], []. repeat split; auto.
-  - destruct (Z.eq_dec x c) as [->|Hx].
-    + exists [], (c :: s). repeat split; auto. right. eexists. reflexivity.
-    + exists (x :: m), q. subst s. repeat split; auto.
-      intros [I|I]; [exact (Hx I)|exact (Hm I)].
-Qed.
-
-(* ---- quotes that are not preceded by a backslash *)
-Fixpoint uq_after (prev : Z) (s : list Z) : Z :=
-  match s with
-  | [] => 0
-  | c :: r => (if (c =? 34) && negb (prev =? 92) then 1 else 0) + uq_after c r
-  end.
-Definition net (s : list Z) : Z := count_char 34 s - count_pair 92 34 s.
-
-Lemma uq_after_nonneg : forall s prev, 0 <= uq_after prev s.
-Proof.
-  induction s as [|c r IH]; intros prev; cbn [uq_after]; [lia|].
-  specialize (IH c). destruct (_ && _); lia.
-Qed.
-
-Lemma uq_after_head s p p' : hd 0 s <> 34 -> uq_after p s = uq_after p' s.
-Proof.
-  destruct s as [|c r]; cbn [hd uq_after]; [reflexivity|]. intros H.
-  replace (c =? 34) with false by (symmetry; apply Z.eqb_neq; exact H).
-  reflexivity.
-Qed.
-
-Lemma net_uq : forall n s, (List.length s <= n)%nat ->
-  forall prev, prev <> 92 -> net s = uq_after prev s.
-Proof.
-  induction n as [|n IH]; intros s Hn prev Hp.
-  - destruct s; [reflexivity|cbn [List.length] in Hn; lia].
-  - destruct s as [|x r]; [reflexivity|]. cbn [List.length] in Hn.
-    unfold net. cbn [count_char count_pair uq_after].
-    replace (prev =? 92) with false by (symmetry; apply Z.eqb_neq; exact Hp).
-    cbn [negb]. rewrite andb_true_r.
-    destruct r as [|y r'].
-    + cbn [count_char uq_after]. lia.
-    + destruct ((x =? 92) && (y =? 34)) eqn:E.
-      * apply andb_true_iff in E as [E1 E2].
-        apply Z.eqb_eq in E1, E2. subst x y.
-        cbn [count_char uq_after]. change (92 =? 34) with false.
-        change (34 =? 34) with true. change (92 =? 92) with true.
-        cbn [negb andb]. cbn [List.length] in Hn.
-        pose proof (IH r' ltac:(lia) 34 ltac:(lia)) as H. unfold net in H. lia.
-      * cbn [List.length] in Hn.
-        destruct (Z.eq_dec x 92) as [->|Hx].
-        -- rewrite Z.eqb_refl in E. cbn [andb] in E. apply Z.eqb_neq in E.
-           change (92 =? 34) with false.
-           pose proof (IH (y :: r') ltac:(cbn [List.length]; lia) 0 ltac:(lia)) as H.
-           rewrite (uq_after_head (y :: r') 92 0) by exact E.
-           unfold net in H. lia.
-        -- pose proof (IH (y :: r') ltac:(cbn [List.length]; lia) x Hx) as H.
-           unfold net in H. lia.
-Qed.
-
-Lemma net_uq0 s : net s = uq_after 0 s.
-Proof. apply (net_uq (List.length s)); [lia|lia]. Qed.
-
-Lemma last_cons (c : Z) a d : last (c :: a) d = last a c.
-Proof.
-  revert c d. induction a as [|x a IH]; intros c d; [reflexivity|].
-  change (last (c :: x :: a) d) with (last (x :: a) d).
-  rewrite (IH x d), (IH x c). reflexivity.
-Qed.
-
-Lemma uq_after_app : forall a prev b,
-  uq_after prev (a ++ b) = uq_after prev a + uq_after (last a prev) b.
-Proof.
-  induction a as [|c a IH]; intros prev b; cbn [app uq_after]; [cbn [last]; lia|].
-  rewrite IH. rewrite last_cons. lia.
-Qed.
-
-Lemma uq_after_noquote : forall k prev, ~ In 34 k -> uq_after prev k = 0.
-Proof.
-  induction k as [|c k IH]; intros prev H; cbn [uq_after]; [reflexivity|].
-  replace (c =? 34) with false
-    by (symmetry; apply Z.eqb_neq; intros E; apply H; left; exact E).
-  cbn [andb]. rewrite IH; [lia|]. intros I. apply H. right. exact I.
-Qed.
-
-(* ---- the splitter on one segment *)
-(* every ';' of b is inside an open quote *)
-Definition odd_at_semis (b : list Z) : Prop :=
-  forall p q, b = p ++ 59 :: q -> net p mod 2 = 1.
-(* the quotes of b are balanced *)
-Definition closed (b : list Z) : Prop := net b mod 2 = 0.
-Definition semi_or_end (r : list Z) : Prop := r = [] \/ exists r', r = 59 :: r'.
-
-Lemma quote_open_app p q : quote_open (p ++ q) (len p) = negb (net p mod 2 =? 0).
-Proof. unfold quote_open. rewrite slice_to_app. reflexivity. Qed.
-
-Lemma pp_end_stop f s e : e <= 0 -> pp_end f s e = e.
-Proof.
-  intros H. destruct f; cbn [pp_end]; [reflexivity|].
-  replace (0 <? e) with false by (symmetry; apply Z.ltb_ge; lia). reflexivity.
-Qed.
-
-Lemma pp_end_run b rest : odd_at_semis b -> (rest <> [] -> closed b) ->
-  semi_or_end rest ->
-  forall n q p fuel, (List.length q <= n)%nat -> (n <= fuel)%nat ->
-    b = p ++ q -> semi_or_end q -> (q = [] -> rest <> []) ->
-    pp_end fuel (b ++ rest) (len p) = if is_nil rest then -1 else len b.
-Proof.
-  intros Hodd Hclosed Hrest.
-  induction n as [|n IH]; intros q p fuel Hq Hfuel Hb Hsq Hpos.
-  - destruct q; [|cbn [List.length] in Hq; lia].
-    rewrite app_nil_r in Hb. subst p. specialize (Hpos eq_refl).
-    destruct rest as [|c rest']; [contradiction|]. cbn [is_nil].
-    destruct fuel; cbn [pp_end]; [reflexivity|].
-    rewrite quote_open_app. rewrite (Hclosed ltac:(discriminate)).
-    cbn. rewrite andb_false_r. reflexivity.
-  - destruct Hsq as [->|[q' ->]].
-    + (* at the end of b *)
-      apply (IH [] p fuel); auto; cbn [List.length]; try lia. left. reflexivity.
-    + destruct fuel as [|f]; [lia|]. cbn [pp_end].
-      assert (Hp : net p mod 2 = 1) by (apply (Hodd p q'); exact Hb).
-      assert (Hpne : 0 < len p).
-      { destruct p; [cbn in Hp; lia|]. rewrite len_cons. pose proof (len_nonneg p). lia. }
-      replace (0 <? len p) with true by (symmetry; apply Z.ltb_lt; exact Hpne).
-      subst b. rewrite <- app_assoc. rewrite quote_open_app. rewrite Hp.
-      cbn [Z.eqb negb andb].
-      destruct (split_first 59 q') as (m & q2 & Eq & Hm & Hq2).
-      cbn [List.length] in Hq.
-      assert (Hlen : len (p ++ [59]) = len p + 1)
-        by (rewrite len_app; unfold len; cbn [List.length]; lia).
-      destruct Hq2 as [->|[q2' ->]].
-      * rewrite app_nil_r in Eq. subst q'.
-        destruct Hrest as [->|[rest' ->]].
-        -- cbn [is_nil]. rewrite app_nil_r.
-           replace (p ++ 59 :: m) with ((p ++ [59]) ++ m)
-             by list_eq.
-           rewrite <- Hlen. rewrite find_miss by exact Hm.
-           apply pp_end_stop. lia.
-        -- cbn [is_nil].
-           replace (p ++ (59 :: m) ++ 59 :: rest') with ((p ++ [59]) ++ m ++ 59 :: rest')
-             by list_eq.
-           rewrite <- Hlen. rewrite find_hit by exact Hm.
-           replace ((p ++ [59]) ++ m ++ 59 :: rest') with ((p ++ 59 :: m) ++ 59 :: rest')
-             by list_eq.
-           replace (len (p ++ [59]) + len m) with (len (p ++ 59 :: m))
-             by (rewrite !len_app, len_cons; unfold len; cbn [List.length]; lia).
-           apply (IH [] (p ++ 59 :: m) f).
-           ++ cbn [List.length]. lia.
-           ++ lia.
-           ++ rewrite app_nil_r. reflexivity.
-           ++ left. reflexivity.
-           ++ intros _. discriminate.
-      * subst q'.
-        replace (p ++ (59 :: m ++ 59 :: q2') ++ rest)
-          with ((p ++ [59]) ++ m ++ 59 :: (q2' ++ rest))
-          by list_eq.
-        rewrite <- Hlen. rewrite find_hit by exact Hm.
-        replace ((p ++ [59]) ++ m ++ 59 :: q2' ++ rest)
-          with ((p ++ 59 :: m ++ 59 :: q2') ++ rest)
-          by list_eq.
-        replace (len (p ++ [59]) + len m) with (len (p ++ 59 :: m))
-          by (rewrite !len_app, len_cons; unfold len; cbn [List.length]; lia).
-        apply (IH (59 :: q2') (p ++ 59 :: m) f).
-        -- rewrite app_length in Hq. cbn [List.length] in *. lia.
-        -- lia.
-        -- rewrite <- !app_assoc. reflexivity.
-        -- right. eexists. reflexivity.
-        -- discriminate.
-Qed.
-
 Lemma find_hit0 c m r : ~ In c m -> find c (m ++ c :: r) 0 = len m.
 Proof. intros H. apply (find_hit c [] m r H). Qed.
 Lemma find_miss0 c m : ~ In c m -> find c m 0 = -1.
 Proof. intros H. apply (find_miss c [] m H). Qed.
 
-Lemma seg_end b rest : odd_at_semis b -> (rest <> [] -> closed b) ->
-  semi_or_end rest ->
-  let s1 := b ++ rest in
-  let e1 := pp_end (List.length s1) s1 (find 59 s1 0) in
-  (if e1 <? 0 then len s1 else e1) = len b.
+Lemma slice_to_all s e : len s <= e -> slice_to s e = s.
+Proof. unfold slice_to, len. intros H. apply firstn_all2. lia. Qed.
+Lemma slice_from_all s e : len s <= e -> slice_from s e = [].
+Proof. unfold slice_from, len. intros H. apply skipn_all2. lia. Qed.
+
+(* ---- the scanner of _parseparam *)
+Definition semi_or_end (r : list Z) : Prop := r = [] \/ exists r', r = 59 :: r'.
+
+(* outside quotes the scan stops in front of a ';' and at the end *)
+Lemma scan_stop r e : semi_or_end r -> scan_end r false e = e.
+Proof. intros [->|[r' ->]]; reflexivity. Qed.
+
+(* outside quotes: text without semicolon and double quote is passed over *)
+Lemma scan_plain : forall k t e, ~ In 59 k -> ~ In 34 k ->
+  scan_end (k ++ t) false e = scan_end t false (e + len k).
 Proof.
-  intros Hodd Hclosed Hrest. cbv zeta.
-  destruct (split_first 59 b) as (m & q & Eb & Hm & Hq).
-  assert (E1 : pp_end (List.length (b ++ rest)) (b ++ rest) (find 59 (b ++ rest) 0)
-               = if is_nil rest then -1 else len b).
-  { destruct Hq as [->|[q' ->]].
-    - rewrite app_nil_r in Eb. subst m.
-      destruct Hrest as [->|[rest' ->]].
-      + rewrite app_nil_r. rewrite find_miss0 by exact Hm. cbn [is_nil].
-        apply pp_end_stop. lia.
-      + rewrite find_hit0 by exact Hm.
-        apply (pp_end_run b (59 :: rest') Hodd Hclosed
-                 ltac:(right; eexists; reflexivity) 0%nat [] b).
-        * cbn [List.length]. lia.
-        * lia.
-        * rewrite app_nil_r. reflexivity.
-        * left. reflexivity.
-        * intros _. discriminate.
-    - subst b.
-      replace (find 59 ((m ++ 59 :: q') ++ rest) 0) with (len m)
-        by (rewrite <- app_assoc; cbn [app]; rewrite find_hit0 by exact Hm; reflexivity).
-      apply (pp_end_run (m ++ 59 :: q') rest Hodd Hclosed Hrest
-               (List.length (59 :: q')) (59 :: q') m).
-      + lia.
-      + rewrite !app_length. cbn [List.length]. lia.
-      + reflexivity.
-      + right. eexists. reflexivity.
-      + discriminate. }
-  rewrite E1. destruct rest as [|c r]; cbn [is_nil].
-  - rewrite app_nil_r. reflexivity.
-  - pose proof (len_nonneg b).
-    replace (len b <? 0) with false by (symmetry; apply Z.ltb_ge; lia). reflexivity.
+  induction k as [|c k IH]; intros t e H59 H34; cbn [app].
+  - unfold len. cbn [List.length]. f_equal. lia.
+  - cbn [scan_end andb].
+    replace (c =? 34) with false
+      by (symmetry; apply Z.eqb_neq; intros E; apply H34; left; exact E).
+    replace (c =? 59) with false
+      by (symmetry; apply Z.eqb_neq; intros E; apply H59; left; exact E).
+    cbn [andb]. rewrite IH.
+    + rewrite len_cons. f_equal. lia.
+    + intros I. apply H59. right. exact I.
+    + intros I. apply H34. right. exact I.
+Qed.
+
+(* a double quote opens / closes the quoted string *)
+Lemma scan_quote t q e : scan_end (34 :: t) q e = scan_end t (negb q) (e + 1).
+Proof.
+  cbn [scan_end]. change (34 =? 92) with false. rewrite andb_false_r.
+  reflexivity.
 Qed.
 
 (* ---- _parseparam on a sequence of segments *)
+(* the scan of segment b, whatever follows it, stops at its end *)
+Definition seg_stops (b : list Z) : Prop :=
+  forall rest, semi_or_end rest -> scan_end (b ++ rest) false 0 = len b.
 Definition segs_str (B : list (list Z)) : list Z := flat_map (cons 59) B.
-Fixpoint segs_ok (B : list (list Z)) : Prop :=
-  match B with
-  | [] => True
-  | b :: B' => odd_at_semis b /\ (B' <> [] -> closed b) /\ segs_ok B'
-  end.
 
 Lemma segs_str_semi B : semi_or_end (segs_str B).
 Proof. destruct B; [left; reflexivity|right; eexists; reflexivity]. Qed.
 
-Lemma segs_str_nil B : segs_str B <> [] -> B <> [].
-Proof. destruct B; [intros H; contradiction|discriminate]. Qed.
-
-Lemma parseparam_segs : forall B fuel, segs_ok B ->
+Lemma parseparam_segs : forall B fuel, Forall seg_stops B ->
   (List.length (segs_str B) < fuel)%nat ->
   parseparam_fuel fuel (segs_str B) = map strip B.
 Proof.
   induction B as [|b B IH]; intros fuel Hok Hf.
   - destruct fuel; reflexivity.
-  - destruct Hok as (Hodd & Hcl & Hok').
+  - inversion Hok as [|b' B' Hb Hok']; subst.
     destruct fuel as [|f]; [lia|].
     change (segs_str (b :: B)) with (59 :: b ++ segs_str B) in *.
-    cbn [parseparam_fuel]. rewrite Z.eqb_refl.
-    pose proof (seg_end b (segs_str B) Hodd
-                  (fun H => Hcl (segs_str_nil B H)) (segs_str_semi B)) as He.
-    cbv zeta in He. rewrite He.
+    cbn [parseparam_fuel]. rewrite Z.eqb_refl. cbv zeta.
+    rewrite (Hb (segs_str B) (segs_str_semi B)).
     rewrite slice_to_app, slice_from_app. cbn [map]. f_equal.
     apply IH; [exact Hok'|].
     cbn [List.length] in Hf. rewrite app_length in Hf. lia.
@@ -1117,39 +935,22 @@ Theorem unescape_escape x :
   replace2 92 34 [34] (replace2 92 92 [92] (escape x)) = x.
 Proof. rewrite escape_flat, unescape_step1. apply unescape_step2. Qed.
 
-Lemma uq_escape : forall x prev, uq_after prev (flat_map esc1 x) = 0.
+(* inside quotes: an escaped value is passed over, whatever it contains
+   (semicolons, escaped quotes, escaped backslashes -- also at its end) *)
+Lemma scan_escaped : forall x t e,
+  scan_end (flat_map esc1 x ++ t) true e
+  = scan_end t true (e + len (flat_map esc1 x)).
 Proof.
-  induction x as [|c x IH]; intros prev; [reflexivity|].
-  cbn [flat_map]. unfold esc1 at 1.
-  destruct (c =? 92) eqn:E1; [|destruct (c =? 34) eqn:E2]; cbn [app uq_after].
-  - change (92 =? 34) with false. cbn [andb]. rewrite IH. reflexivity.
-  - change (92 =? 34) with false. change (92 =? 92) with true.
-    cbn [andb negb]. rewrite andb_false_r. rewrite IH. reflexivity.
-  - rewrite E2. cbn [andb]. rewrite IH. reflexivity.
-Qed.
-
-Lemma last_app_nonempty (a b : list Z) d : b <> [] -> last (a ++ b) d = last b d.
-Proof.
-  intros H. destruct (exists_last H) as (b' & c & ->).
-  rewrite app_assoc, !last_last. reflexivity.
-Qed.
-
-Lemma escape_last x d : x <> [] -> last x d <> 92 -> last (escape x) d <> 92.
-Proof.
-  intros Hne Hl. rewrite escape_flat.
-  destruct (exists_last Hne) as (x' & c & ->).
-  rewrite last_last in Hl. rewrite flat_map_app. cbn [flat_map].
-  rewrite app_nil_r. rewrite last_app_nonempty.
-  - unfold esc1. replace (c =? 92) with false by (symmetry; apply Z.eqb_neq; exact Hl).
-    destruct (c =? 34); cbn [last]; [lia|exact Hl].
-  - unfold esc1. destruct (c =? 92); [discriminate|destruct (c =? 34); discriminate].
-Qed.
-
-Lemma escape_nonempty x : x <> [] -> escape x <> [].
-Proof.
-  intros H. rewrite escape_flat. destruct x as [|c x]; [contradiction|].
-  cbn [flat_map]. unfold esc1.
-  destruct (c =? 92); [discriminate|destruct (c =? 34); discriminate].
+  induction x as [|c x IH]; intros t e.
+  - cbn [flat_map app]. unfold len. cbn [List.length]. f_equal. lia.
+  - cbn [flat_map]. rewrite <- app_assoc, len_app. unfold esc1 at 1 3.
+    destruct (c =? 92) eqn:E1; [|destruct (c =? 34) eqn:E2].
+    + cbn [app scan_end]. change (92 =? 92) with true. cbn [andb].
+      rewrite IH. f_equal. change (len [92; 92]) with 2. lia.
+    + cbn [app scan_end]. change (92 =? 92) with true. cbn [andb].
+      rewrite IH. f_equal. change (len [92; 34]) with 2. lia.
+    + cbn [app scan_end]. rewrite E1, E2. cbn [andb negb].
+      rewrite andb_false_r. rewrite IH. f_equal. change (len [c]) with 1. lia.
 Qed.
 
 (* ---- what add_header writes for one keyword argument *)
@@ -1173,101 +974,69 @@ Proof.
   rewrite IH; [reflexivity|]. intros I. apply H. right. exact I.
 Qed.
 
-Lemma prefix_split (c : Z) : forall A R p q,
-  ~ In c A -> A ++ R = p ++ c :: q ->
-  exists p', p = A ++ p' /\ R = p' ++ c :: q.
+(* what is written for a pair whose value may be empty: the bare key *)
+Definition wpart (kv : list Z * list Z) : list Z :=
+  match snd kv with [] => fst kv | _ :: _ => part kv end.
+
+Lemma kwarg_part_wpart kv : ~ In 95 (fst kv) ->
+  kwarg_part (param_value kv) = wpart kv.
 Proof.
-  induction A as [|a A IH]; intros R p q HA E.
-  - exists p. split; [reflexivity|exact E].
-  - destruct p as [|a' p].
-    + cbn [app] in E. injection E as E1 _. exfalso. apply HA. left. exact E1.
-    + cbn [app] in E. injection E as E1 E2. subst a'.
-      destruct (IH R p q) as (p' & -> & HR); [|exact E2|].
-      * intros I. apply HA. right. exact I.
-      * exists p'. split; [reflexivity|exact HR].
+  intros H. unfold kwarg_part, param_value, wpart. cbn [fst snd].
+  rewrite und2dash_id by exact H. destruct kv as [k [|c x]]; cbn [fst snd].
+  - reflexivity.
+  - apply formatparam_quoted. discriminate.
 Qed.
 
-Definition opener (k : list Z) : list Z := 32 :: k ++ [61; 34].
-
-Lemma opener_uq k : ~ In 34 k ->
-  uq_after 0 (opener k) = 1 /\ last (opener k) 0 = 34.
+Lemma plain_stops v : ~ In 59 v -> ~ In 34 v -> seg_stops v.
 Proof.
-  intros H. unfold opener. split.
-  - cbn [uq_after]. change (32 =? 34) with false. cbn [andb].
-    rewrite uq_after_app, uq_after_noquote by exact H.
-    cbn [uq_after]. change (61 =? 34) with false. change (34 =? 34) with true.
-    change (61 =? 92) with false. cbn [andb negb]. lia.
-  - rewrite last_cons. rewrite last_app_nonempty by discriminate. reflexivity.
+  intros H59 H34 rest Hr. rewrite scan_plain by assumption.
+  rewrite scan_stop by exact Hr. lia.
 Qed.
 
-Lemma seg_shape kv :
-  32 :: part kv = opener (fst kv) ++ escape (snd kv) ++ [34].
-Proof. unfold part, opener. list_eq. Qed.
-
-Lemma seg_odd kv : ~ In 59 (fst kv) -> ~ In 34 (fst kv) ->
-  odd_at_semis (32 :: part kv).
+Lemma not_in_cons (c x : Z) k : c <> x -> ~ In c k -> ~ In c (x :: k).
+Proof. intros H1 H2 [I|I]; [apply H1; symmetry; exact I|exact (H2 I)]. Qed.
+Lemma not_in_snoc (c x : Z) k : c <> x -> ~ In c k -> ~ In c (k ++ [x]).
 Proof.
-  intros H59 H34 p q E. rewrite seg_shape in E.
-  destruct (prefix_split 59 (opener (fst kv)) (escape (snd kv) ++ [34]) p q) as (p' & -> & HR); [|exact E|].
-  { unfold opener. intros [I|I]; [discriminate I|].
-    apply in_app_or in I as [I|I]; [exact (H59 I)|].
-    cbn in I. intuition discriminate. }
-  destruct (opener_uq (fst kv) H34) as [Hu Hl].
-  rewrite net_uq0, uq_after_app, Hu, Hl.
-  (* p' is a proper prefix of the escaped value *)
-  assert (Hq : exists q0, escape (snd kv) = p' ++ 59 :: q0).
-  { destruct (@exists_last _ (59 :: q) ltac:(discriminate)) as (q0 & c & Eq).
-    rewrite Eq, app_assoc in HR. apply app_inj_tail in HR as [HE Hc].
-    destruct q0 as [|c0 q0].
-    - cbn [app] in Eq. injection Eq as Eq1 Eq2. subst c. discriminate.
-    - cbn [app] in Eq. injection Eq as Eq1 Eq2. subst c0.
-      exists q0. rewrite HE. list_eq. }
-  destruct Hq as (q0 & Hq).
-  pose proof (uq_escape (snd kv) 34) as H0. rewrite <- escape_flat, Hq in H0.
-  rewrite uq_after_app in H0.
-  pose proof (uq_after_nonneg p' 34). pose proof (uq_after_nonneg (59 :: q0) (last p' 34)).
-  replace (uq_after 34 p') with 0 by lia. reflexivity.
+  intros H1 H2 I. apply in_app_or in I as [I|[I|[]]];
+    [exact (H2 I)|apply H1; symmetry; exact I].
 Qed.
 
-Lemma seg_closed kv : ~ In 34 (fst kv) -> snd kv <> [] -> last (snd kv) 0 <> 92 ->
-  closed (32 :: part kv).
+(* ' key="escaped value"' : the scan passes the key, enters the quoted
+   string at the first quote, passes the escaped value and leaves the quoted
+   string at the last quote -- for EVERY value *)
+Lemma part_stops kv : ~ In 59 (fst kv) -> ~ In 34 (fst kv) ->
+  seg_stops (32 :: part kv).
 Proof.
-  intros H34 Hne Hl. unfold closed. rewrite seg_shape.
-  destruct (opener_uq (fst kv) H34) as [Hu Hlo].
-  rewrite net_uq0, app_assoc, uq_after_app, uq_after_app, Hu, Hlo.
-  rewrite (escape_flat (snd kv)) at 1. rewrite uq_escape.
-  rewrite last_app_nonempty by (apply escape_nonempty; exact Hne).
-  pose proof (escape_last (snd kv) 0 Hne Hl) as HL.
-  cbn [uq_after]. change (34 =? 34) with true.
-  replace (last (escape (snd kv)) 0 =? 92) with false
-    by (symmetry; apply Z.eqb_neq; exact HL).
-  reflexivity.
+  intros H59 H34 rest Hr. unfold part.
+  replace ((32 :: fst kv ++ 61 :: 34 :: escape (snd kv) ++ [34]) ++ rest)
+    with (((32 :: fst kv) ++ [61]) ++ 34 :: escape (snd kv) ++ 34 :: rest)
+    by list_eq.
+  rewrite scan_plain, scan_quote.
+  2:{ apply not_in_snoc; [lia|]. apply not_in_cons; [lia|exact H59]. }
+  2:{ apply not_in_snoc; [lia|]. apply not_in_cons; [lia|exact H34]. }
+  cbn [negb]. rewrite escape_flat, scan_escaped, scan_quote. cbn [negb].
+  rewrite scan_stop by exact Hr.
+  repeat (progress (rewrite ?len_cons, ?len_app)).
+  change (len (@nil Z)) with 0. lia.
 Qed.
 
-Lemma main_odd v : ~ In 59 v -> odd_at_semis v.
+Lemma wpart_stops kv : ~ In 59 (fst kv) -> ~ In 34 (fst kv) ->
+  seg_stops (32 :: wpart kv).
 Proof.
-  intros H p q E. exfalso. apply H. rewrite E. apply in_or_app. right. left. reflexivity.
-Qed.
-
-Lemma main_closed v : ~ In 34 v -> closed v.
-Proof.
-  intros H. unfold closed. rewrite net_uq0, uq_after_noquote by exact H. reflexivity.
+  intros H59 H34. unfold wpart. destruct (snd kv) eqn:E.
+  - apply plain_stops; apply not_in_cons; try lia; assumption.
+  - apply part_stops; assumption.
 Qed.
 
 Definition kv_ok (kv : list Z * list Z) : Prop := key_ok (fst kv) /\ snd kv <> [].
 
-Lemma segs_ok_params ps : Forall kv_ok ps -> no_bs_before_next ps ->
-  segs_ok (map (cons 32) (map part ps)).
+Lemma segs_stop_params ps : Forall (fun kv => key_ok (fst kv)) ps ->
+  Forall seg_stops (map (cons 32) (map wpart ps)).
 Proof.
-  induction ps as [|kv t IH]; intros Hok Hbs; [exact I|].
-  inversion Hok as [|kv' t' [Hk Hne] Ht]; subst.
-  destruct Hbs as [Hb Hbs'].
+  induction ps as [|kv t IH]; intros Hok; [constructor|].
+  inversion Hok as [|kv' t' Hk Ht]; subst.
   destruct Hk as (H61 & H59 & H34 & H95 & Hlow & Hst).
-  cbn [map segs_ok]. repeat split.
-  - apply seg_odd; assumption.
-  - intros Hn. apply seg_closed; try assumption. apply Hb.
-    intros ->. apply Hn. reflexivity.
-  - apply IH; assumption.
+  cbn [map]. constructor; [apply wpart_stops; assumption|apply IH; exact Ht].
 Qed.
 
 (* ---- parse_header on one parameter *)
@@ -1328,92 +1097,111 @@ Proof.
   - symmetry. apply lz_eqb_neq. intros E. apply H. left. exact E.
 Qed.
 
-Lemma fold_params : forall ps d, Forall kv_ok ps ->
+(* ---- parameters whose value may be empty: written as the bare key, which
+   reads back as no entry *)
+Definition nonempty (kv : list Z * list Z) : bool := negb (is_nil (snd kv)).
+
+Lemma strip_wpart kv : stripped (fst kv) = true -> strip (32 :: wpart kv) = wpart kv.
+Proof.
+  intros H. unfold wpart. destruct (snd kv) eqn:E.
+  - rewrite strip_space_cons. apply stripped_strip. exact H.
+  - apply strip_part. exact H.
+Qed.
+
+Lemma header_param_wpart d kv : key_ok (fst kv) ->
+  header_param d (wpart kv)
+  = if nonempty kv then dict_set d (fst kv) (snd kv) else d.
+Proof.
+  intros Hk. unfold wpart, nonempty. destruct (snd kv) eqn:E; cbn [is_nil negb].
+  - destruct Hk as (H61 & _). unfold header_param.
+    rewrite find_miss0 by exact H61. reflexivity.
+  - rewrite <- E. apply header_param_part. split; [exact Hk|].
+    rewrite E. discriminate.
+Qed.
+
+Lemma fold_wparams : forall ps d, Forall (fun kv => key_ok (fst kv)) ps ->
   NoDup (map fst ps) -> (forall k, In k (map fst ps) -> ~ In k (map fst d)) ->
-  fold_left header_param (map part ps) d = d ++ ps.
+  fold_left header_param (map wpart ps) d = d ++ filter nonempty ps.
 Proof.
   induction ps as [|kv t IH]; intros d Hok Hnd Hdis.
   - cbn. rewrite app_nil_r. reflexivity.
   - inversion Hok as [|kv' t' Hkv Ht]; subst.
     cbn [map] in Hnd. inversion Hnd as [|k' l' Hnin Hnd']; subst.
-    cbn [map fold_left]. rewrite header_param_part by exact Hkv.
-    rewrite dict_set_fresh by (apply Hdis; left; reflexivity).
-    rewrite IH; [destruct kv; list_eq|exact Ht|exact Hnd'|].
-    intros k Hk. rewrite map_app. intros I. apply in_app_or in I as [I|I].
-    + apply (Hdis k); [right; exact Hk|exact I].
-    + cbn in I. destruct I as [I|[]]. subst k. exact (Hnin Hk).
+    cbn [map fold_left filter]. rewrite header_param_wpart by exact Hkv.
+    destruct (nonempty kv).
+    + rewrite dict_set_fresh by (apply Hdis; left; reflexivity).
+      rewrite IH; [destruct kv; list_eq|exact Ht|exact Hnd'|].
+      intros k Hk. rewrite map_app. intros I. apply in_app_or in I as [I|I].
+      * apply (Hdis k); [right; exact Hk|exact I].
+      * cbn in I. destruct I as [I|[]]. subst k. exact (Hnin Hk).
+    + apply IH; [exact Ht|exact Hnd'|].
+      intros k Hk. apply Hdis. right. exact Hk.
+Qed.
+
+Lemma filter_all_nonempty ps :
+  Forall (fun kv => snd kv <> []) ps -> filter nonempty ps = ps.
+Proof.
+  induction ps as [|kv t IH]; intros H; [reflexivity|].
+  inversion H as [|kv' t' Hkv Ht]; subst. cbn [filter]. unfold nonempty at 1.
+  destruct (snd kv); [contradiction|]. cbn [is_nil negb]. rewrite IH by exact Ht.
+  reflexivity.
 Qed.
 
 (* ---- the round trip *)
-Theorem param_roundtrip v ps :
+(* every list of parameters, empty values included: what is read back are
+   the pairs with a non-empty value *)
+Theorem param_roundtrip_gen v ps :
   main_ok v -> Forall (fun kv => key_ok (fst kv)) ps -> NoDup (map fst ps) ->
-  Forall (fun kv => snd kv <> []) ps -> no_bs_before_next ps ->
-  bind (add_header_value (Some v) (map param_value ps)) parse_header = Ok (v, ps).
+  bind (add_header_value (Some v) (map param_value ps)) parse_header
+  = Ok (v, filter nonempty ps).
 Proof.
-  intros (Hv59 & Hv34 & Hvs) Hkeys Hnd Hne Hbs.
-  assert (Hok : Forall kv_ok ps).
-  { rewrite Forall_forall in *. intros kv Hin. split; auto. }
-  assert (Hparts : map kwarg_part (map param_value ps) = map part ps).
+  intros (Hv59 & Hv34 & Hvs) Hkeys Hnd.
+  assert (Hparts : map kwarg_part (map param_value ps) = map wpart ps).
   { rewrite map_map. apply map_ext_in. intros kv Hin.
-    rewrite Forall_forall in Hok. destruct (Hok kv Hin) as [Hk Hx].
-    unfold kwarg_part, param_value. cbn [fst snd].
-    rewrite und2dash_id by apply Hk. rewrite formatparam_quoted by exact Hx.
-    destruct kv; reflexivity. }
+    rewrite Forall_forall in Hkeys. apply kwarg_part_wpart. apply (Hkeys kv Hin). }
   unfold add_header_value. cbn [app]. rewrite Hparts. cbn [bind].
   unfold parse_header, parseparam. rewrite join_semis.
-  rewrite parseparam_segs; [|cbn [segs_ok]; repeat split|lia].
-  - assert (Hs : map strip (map (cons 32) (map part ps)) = map part ps).
-    { rewrite !map_map. apply map_ext_in. intros kv Hin. apply strip_part.
-      rewrite Forall_forall in Hok. apply (Hok kv Hin). }
+  rewrite parseparam_segs; [|constructor|lia].
+  - assert (Hs : map strip (map (cons 32) (map wpart ps)) = map wpart ps).
+    { rewrite !map_map. apply map_ext_in. intros kv Hin. apply strip_wpart.
+      rewrite Forall_forall in Hkeys. apply (Hkeys kv Hin). }
     cbn [map]. rewrite Hs, (stripped_strip v Hvs). f_equal. f_equal.
-    apply (fold_params ps []); auto.
-  - apply main_odd. exact Hv59.
-  - intros _. apply main_closed. exact Hv34.
-  - apply segs_ok_params; assumption.
+    apply (fold_wparams ps []); auto.
+  - apply plain_stops; assumption.
+  - apply segs_stop_params. exact Hkeys.
 Qed.
 
-Lemma no_backslash_ok ps :
-  Forall (fun kv => ~ In 92 (snd kv)) ps -> no_bs_before_next ps.
-Proof.
-  induction ps as [|kv t IH]; intros H; [exact I|].
-  inversion H as [|kv' t' Hkv Ht]; subst. split; [|exact (IH Ht)].
-  intros _ E. destruct (snd kv) as [|c x] eqn:Ex; [cbn in E; lia|].
-  destruct (@exists_last _ (c :: x) ltac:(discriminate)) as (x' & c' & Ec).
-  rewrite Ec, last_last in E. subst c'. apply Hkv. rewrite Ec.
-  apply in_or_app. right. left. reflexivity.
-Qed.
-
-Theorem param_roundtrip_nobackslash v ps :
+Theorem param_roundtrip v ps :
   main_ok v -> Forall (fun kv => key_ok (fst kv)) ps -> NoDup (map fst ps) ->
-  Forall (fun kv => snd kv <> []) ps -> Forall (fun kv => ~ In 92 (snd kv)) ps ->
+  Forall (fun kv => snd kv <> []) ps ->
   bind (add_header_value (Some v) (map param_value ps)) parse_header = Ok (v, ps).
 Proof.
-  intros. apply param_roundtrip; auto. apply no_backslash_ok. assumption.
+  intros Hv Hkeys Hnd Hne. rewrite param_roundtrip_gen by assumption.
+  rewrite filter_all_nonempty by exact Hne. reflexivity.
 Qed.
 
-(* without the hypothesis on backslashes the round trip fails: known finding
-   param-backslash-before-next-param *)
-Theorem param_roundtrip_refuted :
-  exists v ps,
-    main_ok v /\ Forall (fun kv => key_ok (fst kv)) ps /\ NoDup (map fst ps) /\
-    Forall (fun kv => snd kv <> []) ps /\
-    bind (add_header_value (Some v) (map param_value ps)) parse_header
-      = Ok (v, [(s2l "a", s2l "x""; filename=""b")]) /\
-    bind (add_header_value (Some v) (map param_value ps)) parse_header
-      <> Ok (v, ps).
-Proof.
-  exists (s2l "form-data"), [(s2l "a", [120; 92]); (s2l "filename", s2l "b")].
-  assert (K : forall k, k = s2l "a" \/ k = s2l "filename" -> key_ok k).
-  { intros k [-> | ->]; unfold key_ok; repeat split;
-      vm_compute; first [reflexivity | intuition discriminate]. }
-  split; [|split; [|split; [|split; [|split]]]].
-  - unfold main_ok. repeat split; vm_compute; first [reflexivity | intuition discriminate].
-  - repeat constructor; apply K; cbn [fst]; auto.
-  - repeat constructor; vm_compute; intuition discriminate.
-  - repeat constructor; discriminate.
-  - vm_compute. reflexivity.
-  - vm_compute. discriminate.
-Qed.
+(* the witness of the former finding param-backslash-before-next-param
+   (add_header('form-data', a='x\', filename='b') used to read back as the
+   single parameter a = x"; filename="b) *)
+Theorem param_roundtrip_backslash :
+  bind (add_header_value (Some (s2l "form-data"))
+          (map param_value [(s2l "a", [120; 92]); (s2l "filename", s2l "b")]))
+       parse_header
+  = Ok (s2l "form-data", [(s2l "a", [120; 92]); (s2l "filename", s2l "b")]).
+Proof. vm_compute. reflexivity. Qed.
+
+(* _parseparam itself on the rendered text of that witness and on the other
+   shapes around an escaped character at the end of a quoted string *)
+Example parseparam_backslash_shapes :
+  parseparam (s2l "; a=""x\\""; filename=""b""") = [s2l "a=""x\\"""; s2l "filename=""b"""]
+  /\ parseparam (s2l "; a=""x\""; filename=""b""") = [s2l "a=""x\""; filename=""b"""]
+  /\ parseparam (s2l ";a=""x\\\""; b=""c"";d") = [s2l "a=""x\\\""; b=""c"";d"]
+  /\ parseparam (s2l ";a=""x\\\\""; b=""c"";d") = [s2l "a=""x\\\\"""; s2l "b=""c"""; s2l "d"]
+  /\ parseparam (s2l ";a=x\""; b=""c;d") = [s2l "a=x\""; b=""c"; s2l "d"]
+  /\ parseparam (s2l ";a=""x\") = [s2l "a=""x\"]
+  /\ parseparam (s2l ";a=""b;c") = [s2l "a=""b;c"]
+  /\ parseparam (s2l ";;; x ;") = [[]; []; s2l "x"; []].
+Proof. vm_compute. repeat split. Qed.
 
 Theorem parse_header_total s : exists r, parse_header s = Ok r.
 Proof.
@@ -1423,13 +1211,10 @@ Qed.
 
 Example param_example :
   bind (add_header_value (Some (s2l "form-data"))
-          (map param_value [(s2l "a", s2l "x\y;""z"" "); (s2l "filename", [92; 34; 59; 92])]))
+          (map param_value [(s2l "a", s2l "x\y;""z"" \"); (s2l "filename", [92; 34; 59; 92]);
+                            (s2l "b", [13; 10; 8364; 92; 92])]))
        parse_header
-  = Ok (s2l "form-data", [(s2l "a", s2l "x\y;""z"" "); (s2l "filename", [92; 34; 59; 92])])
-  /\ no_bs_before_next [(s2l "a", s2l "x\y;""z"" "); (s2l "filename", [92; 34; 59; 92])]
+  = Ok (s2l "form-data", [(s2l "a", s2l "x\y;""z"" \"); (s2l "filename", [92; 34; 59; 92]);
+                          (s2l "b", [13; 10; 8364; 92; 92])])
   /\ parse_header (s2l ";;a=""") = Ok ([], [(s2l "a", [34])]).
-Proof.
-  split; [vm_compute; reflexivity|]. split; [|vm_compute; reflexivity].
-  cbn [no_bs_before_next]. repeat split; intros H;
-    [vm_compute; discriminate|exfalso; apply H; reflexivity].
-Qed.
+Proof. split; vm_compute; reflexivity. Qed.
